@@ -1,7 +1,7 @@
 """C08 — conv-probe property (see vlib/props/convprops.py)."""
 from vlib.props import convprops as P, convcommon as cc
 from vlib import convgen as g
-globals().update(P.make('C08', 'conv probe: every cut point (connection closed at every octet offset) of 6 conversations (DATA, BDAT, LMTP, AUTH) in 2 configurations; generic sweep and walks incl. TLS; every server-initiated close (QUIT, error threshold, over-long line, idle timeout, backend panic) with pipelined suffixes. non-trivial = at least one backend callback', ['C08_lifecycle', 'C08_lifecycle_visible', 'C08_ends_closed', 'C08_cut_line_not_executed', 'C08_cut_line_not_read'], [('every-cut', P.cut_convs), ('failed-handshake', P.hsfail_convs)], lambda a: cc.project(a, codes='class', enh=False, drecs='ret'), tls=True, configs=None))
+globals().update(P.make('C08', 'conv probe: every cut point (connection closed at every octet offset) of 6 conversations (DATA, BDAT, LMTP, AUTH) in 2 configurations; generic sweep and walks incl. TLS; every server-initiated close (QUIT, error threshold, over-long line, idle timeout, backend panic) with pipelined suffixes. non-trivial = at least one backend callback', ['C08_lifecycle', 'C08_lifecycle_visible', 'C08_ends_closed', 'C08_cut_line_not_executed', 'C08_cut_line_not_read', 'C08_cut_ends_loop'], [('every-cut', P.cut_convs), ('failed-handshake', P.hsfail_convs)], lambda a: cc.project(a, codes='class', enh=False, drecs='ret'), tls=True, configs=None))
 
 
 # --- overlapping Close calls: the peer goes away / QUITs / the application closes the connection while Server.Close or
